@@ -9,11 +9,13 @@ import (
 	"math"
 	"sort"
 	"strings"
+	"sync/atomic"
 
 	"github.com/ctessum/geom"
 	"github.com/ctessum/geom/index/rtree"
 
 	"verif/mc/bfs"
+	"verif/mc/enum"
 	"verif/mc/report"
 )
 
@@ -30,6 +32,9 @@ type Universe struct {
 	Min  int
 	Max  int
 	idx  map[geom.Geom]int
+	// orig holds the boxes of the objects as they were created (a tree must
+	// never modify a stored object; the oracles compare with these copies).
+	orig []geom.Bounds
 	// Queries are the SearchIntersect query boxes, QPoints the nearest-neighbour
 	// query points used with this alphabet.
 	Queries []*geom.Bounds
@@ -90,6 +95,12 @@ func NewSpreadUniverse(n, min, max int, dups ...int) *Universe {
 	for i, o := range u.Objs {
 		u.idx[o] = i
 	}
+	spreadQueries(u)
+	return u
+}
+
+// spreadQueries fills in the query boxes and points over the [0,5]^2 area.
+func spreadQueries(u *Universe) {
 	for x0 := 0; x0 <= 5; x0++ {
 		for x1 := x0; x1 <= 5; x1++ {
 			for y0 := 0; y0 <= 5; y0++ {
@@ -107,7 +118,51 @@ func NewSpreadUniverse(n, min, max int, dups ...int) *Universe {
 			u.QPoints = append(u.QPoints, geom.Point{X: x, Y: y})
 		}
 	}
+}
+
+// NewGridUniverse is a third alphabet for large trees: the 36 points of the
+// {0..5}^2 grid (every fifth one as a degenerate pointer-typed box, the others
+// as value-typed points), enough objects for height-3 trees with a full root.
+func NewGridUniverse(min, max int) *Universe {
+	u := &Universe{Min: min, Max: max, idx: map[geom.Geom]int{}}
+	for i := 0; i < 36; i++ {
+		x, y := float64(i%6), float64(i/6)
+		var g geom.Geom = geom.Point{X: x, Y: y}
+		if i%5 == 2 {
+			g = box(x, y, x, y)
+		}
+		u.Objs = append(u.Objs, g)
+		u.idx[g] = i
+	}
+	u.Dup = make([]bool, len(u.Objs))
+	spreadQueries(u)
 	return u
+}
+
+// GridSeeds are insertion orders of the first 24..34 grid objects in five
+// fixed orderings (row-major, column-major, two strides, reverse).
+func GridSeeds() [][]int {
+	orders := [][]int{}
+	mk := func(f func(i int) int) []int {
+		o := make([]int, 36)
+		for i := range o {
+			o[i] = f(i)
+		}
+		return o
+	}
+	orders = append(orders,
+		mk(func(i int) int { return i }),
+		mk(func(i int) int { return (i%6)*6 + i/6 }),
+		mk(func(i int) int { return (i * 7) % 36 }),
+		mk(func(i int) int { return (i * 11) % 36 }),
+		mk(func(i int) int { return 35 - i }))
+	var seeds [][]int
+	for _, o := range orders {
+		for n := 24; n <= 34; n++ {
+			seeds = append(seeds, o[:n])
+		}
+	}
+	return seeds
 }
 
 // NewScaledUniverse is the compact alphabet with every coordinate multiplied by
@@ -135,6 +190,39 @@ func NewScaledUniverse(n, min, max int, dups ...int) *Universe {
 		u.QPoints = append(u.QPoints, sc(p))
 	}
 	return u
+}
+
+// seal records the pristine boxes; called lazily.
+func (u *Universe) seal() {
+	if u.orig == nil {
+		u.orig = make([]geom.Bounds, len(u.Objs))
+		for i, o := range u.Objs {
+			u.orig[i] = *o.Bounds()
+		}
+	}
+}
+
+// Orig is the box object i was created with.
+func (u *Universe) Orig(i int) *geom.Bounds { u.seal(); return &u.orig[i] }
+
+// origOf is the pristine box of a stored object (its current box for an
+// object outside the alphabet).
+func (u *Universe) origOf(o geom.Geom) geom.Bounds {
+	if i, ok := u.idx[o]; ok {
+		return *u.Orig(i)
+	}
+	return *o.Bounds()
+}
+
+// Modified names the first object whose box differs from its pristine copy.
+func (u *Universe) Modified() string {
+	u.seal()
+	for i, o := range u.Objs {
+		if *o.Bounds() != u.orig[i] {
+			return fmt.Sprintf("o%d is now %v, was %v", i, *o.Bounds(), u.orig[i])
+		}
+	}
+	return ""
 }
 
 // OpName renders an operation index.
@@ -192,6 +280,12 @@ func (u *Universe) Key(o interface{}) []byte {
 		b.WriteByte(byte(len(n.Entries)))
 		for _, e := range n.Entries {
 			binary.Write(&b, binary.LittleEndian, [4]float64{e.BB.Min.X, e.BB.Min.Y, e.BB.Max.X, e.BB.Max.Y})
+			binary.Write(&b, binary.LittleEndian, int16(e.Alias))
+			if e.BBIsObj {
+				b.WriteByte(1)
+			} else {
+				b.WriteByte(0)
+			}
 			if e.Child != nil {
 				b.WriteByte(0xff)
 				w(e.Child)
@@ -278,6 +372,7 @@ func (e *Explorer) Apply(s *bfs.State, op int) (interface{}, bool) {
 
 // Run explores to maxDepth from the seeds (nil seeds = the empty tree).
 func (e *Explorer) Run(maxDepth int) bfs.Stats {
+	e.U.seal()
 	var seeds []interface{}
 	if e.Seeds == nil {
 		e.Seeds = [][]int{{}}
@@ -306,7 +401,7 @@ func (e *Explorer) Run(maxDepth int) bfs.Stats {
 
 // Height returns the number of levels of the snapshot and whether all leaves
 // are at the same depth.
-func structure(root *rtree.VNode, max int) (leafDepths map[int]bool, problems []string) {
+func structure(u *Universe, root *rtree.VNode, max int) (leafDepths map[int]bool, problems []string) {
 	leafDepths = map[int]bool{}
 	var w func(n *rtree.VNode, depth int)
 	w = func(n *rtree.VNode, depth int) {
@@ -331,7 +426,7 @@ func structure(root *rtree.VNode, max int) (leafDepths map[int]bool, problems []
 				continue
 			}
 			if en.Child != nil {
-				env, any := envelope(en.Child)
+				env, any := envelope(u, en.Child)
 				if !any || env != en.BB {
 					problems = append(problems, fmt.Sprintf("envelope: entry box %v but subtree envelope %v", en.BB, env))
 				}
@@ -340,8 +435,8 @@ func structure(root *rtree.VNode, max int) (leafDepths map[int]bool, problems []
 				}
 				w(en.Child, depth+1)
 			} else {
-				if ob := en.Obj.Bounds(); *ob != en.BB {
-					problems = append(problems, fmt.Sprintf("envelope: leaf entry box %v but object box %v", en.BB, *ob))
+				if ob := u.origOf(en.Obj); ob != en.BB {
+					problems = append(problems, fmt.Sprintf("envelope: leaf entry box %v but object box %v", en.BB, ob))
 				}
 			}
 		}
@@ -350,19 +445,19 @@ func structure(root *rtree.VNode, max int) (leafDepths map[int]bool, problems []
 	return
 }
 
-func envelope(n *rtree.VNode) (geom.Bounds, bool) {
+func envelope(u *Universe, n *rtree.VNode) (geom.Bounds, bool) {
 	b := geom.Bounds{Min: geom.Point{X: math.Inf(1), Y: math.Inf(1)}, Max: geom.Point{X: math.Inf(-1), Y: math.Inf(-1)}}
 	any := false
 	for _, e := range n.Entries {
 		var eb geom.Bounds
 		if e.Child != nil {
 			var ok bool
-			eb, ok = envelope(e.Child)
+			eb, ok = envelope(u, e.Child)
 			if !ok {
 				continue
 			}
 		} else {
-			eb = *e.Obj.Bounds()
+			eb = u.origOf(e.Obj)
 		}
 		any = true
 		b.Min.X = math.Min(b.Min.X, eb.Min.X)
@@ -404,7 +499,10 @@ func CheckC11(e *Explorer, s *bfs.State) {
 	if st.T.Size() != want {
 		e.Viol("Size-wrong", s, fmt.Sprintf("Size()=%d want %d", st.T.Size(), want))
 	}
-	depths, problems := structure(root, u.Max)
+	if m := u.Modified(); m != "" {
+		e.Viol("stored-object-modified", s, m)
+	}
+	depths, problems := structure(u, root, u.Max)
 	for _, p := range problems {
 		e.Viol("structure:"+strings.SplitN(p, ":", 2)[0], s, p)
 	}
@@ -420,6 +518,9 @@ func CheckC11(e *Explorer, s *bfs.State) {
 			}
 			if d >= 3 {
 				e.R.Inc("states_height_ge3", 1)
+				if len(root.Entries) == u.Max {
+					e.R.Inc("states_height_ge3_full_root", 1)
+				}
 			}
 		}
 	}
@@ -443,9 +544,9 @@ func CheckC11(e *Explorer, s *bfs.State) {
 			got[i]++
 		}
 		if bad == "" {
-			for i, o := range u.Objs {
+			for i := range u.Objs {
 				w := 0
-				ob := o.Bounds()
+				ob := u.Orig(i)
 				if ob.Min.X <= q.Max.X && q.Min.X <= ob.Max.X && ob.Min.Y <= q.Max.Y && q.Min.Y <= ob.Max.Y {
 					w = int(st.Counts[i])
 				}
@@ -512,12 +613,15 @@ func CheckC12(e *Explorer, s *bfs.State) {
 	if h >= 2 {
 		e.R.AddNontrivial(1)
 	}
+	if m := u.Modified(); m != "" {
+		e.Viol("stored-object-modified", s, m)
+	}
 	all := make([]float64, 0, size)
 	for _, p := range u.QPoints {
 		all = all[:0]
-		for i, o := range u.Objs {
+		for i := range u.Objs {
 			for c := 0; c < int(st.Counts[i]); c++ {
-				all = append(all, boxDist(p, o.Bounds()))
+				all = append(all, boxDist(p, u.Orig(i)))
 			}
 		}
 		sort.Float64s(all)
@@ -529,7 +633,7 @@ func CheckC12(e *Explorer, s *bfs.State) {
 		if i, ok := u.idx[nn]; !ok || st.Counts[i] == 0 {
 			e.Viol("NearestNeighbor-not-stored", s, fmt.Sprintf("p=%v returned %v", p, nn))
 			return
-		} else if d := boxDist(p, nn.Bounds()); math.Abs(d-all[0]) > 1e-12 {
+		} else if d := boxDist(p, u.Orig(i)); math.Abs(d-all[0]) > 1e-12 {
 			e.Viol("NearestNeighbor-not-nearest", s, fmt.Sprintf("p=%v returned o%d at distance %g, minimum is %g", p, i, d, all[0]))
 			return
 		}
@@ -580,7 +684,7 @@ func judgeKNN(u *Universe, st *St, res []geom.Geom, k, size int, p geom.Point, a
 		if used[i] > int(st.Counts[i]) {
 			return fmt.Sprintf("object o%d returned more often than stored", i)
 		}
-		d := boxDist(p, res[j].Bounds())
+		d := boxDist(p, u.Orig(i))
 		if d < prev {
 			return fmt.Sprintf("distances not non-decreasing at slot %d", j)
 		}
@@ -590,4 +694,198 @@ func judgeKNN(u *Universe, st *St, res []geom.Geom, k, size int, p geom.Point, a
 		}
 	}
 	return ""
+}
+
+// ---- operation sequences with queries as operations ---------------------------
+
+// SeqStats of a sequence search.
+type SeqStats struct {
+	Nodes, Queries int64
+}
+
+// Sequences explores every operation sequence of length <= depth over the
+// alphabet Insert(o), Delete(o) and the query operations of the property
+// (nn=false: SearchIntersect for nq fixed boxes; nn=true: NearestNeighbor(p)
+// and NearestNeighbors(2,p) for nq fixed points) as a plain tree search: no
+// two histories are merged, and a query is an operation like any other, so
+// that state the canonical key cannot see (a cache filled by a query, an
+// aliased box) is carried along exactly as a caller would carry it. Every
+// query result is compared with the brute-force answer for the model multiset
+// at that point of the history.
+func (e *Explorer) Sequences(depth int, nn bool) SeqStats {
+	u := e.U
+	u.seal()
+	n := len(u.Objs)
+	qb := []*geom.Bounds{box(0, 0, 1, 1), box(2.5, 2.5, 4, 4), box(1, 1, 1, 1)}
+	qp := []geom.Point{{X: 0.5, Y: 0.5}, {X: 3, Y: 3.5}}
+	nq := len(qb)
+	if nn {
+		nq = 2 * len(qp)
+	}
+	var stats SeqStats
+	name := func(op int) string {
+		switch {
+		case op < 2*n:
+			return u.OpName(op)
+		case !nn:
+			return fmt.Sprintf("SearchIntersect(%v)", *qb[op-2*n])
+		case (op-2*n)%2 == 0:
+			return fmt.Sprintf("NearestNeighbor(%v)", qp[(op-2*n)/2])
+		}
+		return fmt.Sprintf("NearestNeighbors(2,%v)", qp[(op-2*n)/2])
+	}
+	viol := func(sym string, hist []int, detail string) {
+		h := []string{fmt.Sprintf("NewTree(%d,%d)", u.Min, u.Max)}
+		for _, op := range hist {
+			h = append(h, name(op))
+		}
+		e.R.Violation(fmt.Sprintf("sequence|%s|branching=%d,%d", sym, u.Min, u.Max), map[string]interface{}{"history": strings.Join(h, " "), "observed": detail})
+	}
+	// step applies op to a copy of st; ok=false when op is not enabled.
+	step := func(st *St, hist []int, op int) (*St, bool) {
+		t := st.T.VerifClone()
+		cn := st.Counts
+		switch {
+		case op < n:
+			c := st.Counts[op]
+			if !(c == 0 || (c == 1 && u.Dup[op])) {
+				return nil, false
+			}
+			if p := try(func() { t.Insert(u.Objs[op]) }); p != "" {
+				viol("Insert-panic", hist, p)
+				return nil, false
+			}
+			cn = append([]uint8{}, st.Counts...)
+			cn[op]++
+		case op < 2*n:
+			i := op - n
+			var ok bool
+			if p := try(func() { ok = t.Delete(u.Objs[i]) }); p != "" {
+				viol("Delete-panic", hist, p)
+				return nil, false
+			}
+			if ok != (st.Counts[i] > 0) {
+				viol("Delete-result", hist, fmt.Sprintf("Delete(o%d) returned %v with %d copies stored", i, ok, st.Counts[i]))
+				return nil, false
+			}
+			if ok {
+				cn = append([]uint8{}, st.Counts...)
+				cn[i]--
+			}
+		case !nn:
+			q := qb[op-2*n]
+			var res []geom.Geom
+			if p := try(func() { res = t.SearchIntersect(q) }); p != "" {
+				viol("SearchIntersect-panic", hist, p)
+				return nil, false
+			}
+			atomic.AddInt64(&stats.Queries, 1)
+			got := make([]int, n)
+			for _, o := range res {
+				i, ok := u.idx[o]
+				if !ok {
+					viol("SearchIntersect-mismatch", hist, fmt.Sprintf("returned an object never stored: %v", o))
+					return nil, false
+				}
+				got[i]++
+			}
+			for i := range u.Objs {
+				w := 0
+				ob := u.Orig(i)
+				if ob.Min.X <= q.Max.X && q.Min.X <= ob.Max.X && ob.Min.Y <= q.Max.Y && q.Min.Y <= ob.Max.Y {
+					w = int(st.Counts[i])
+				}
+				if got[i] != w {
+					viol("SearchIntersect-mismatch", hist, fmt.Sprintf("query %v: object o%d returned %d times, want %d", *q, i, got[i], w))
+					return nil, false
+				}
+			}
+		default:
+			p := qp[(op-2*n)/2]
+			size := 0
+			var all []float64
+			for i := range u.Objs {
+				for c := 0; c < int(st.Counts[i]); c++ {
+					all = append(all, boxDist(p, u.Orig(i)))
+					size++
+				}
+			}
+			if size == 0 {
+				return nil, false // the property speaks about non-empty trees
+			}
+			sort.Float64s(all)
+			atomic.AddInt64(&stats.Queries, 1)
+			if (op-2*n)%2 == 0 {
+				var r geom.Geom
+				if pn := try(func() { r = t.NearestNeighbor(p) }); pn != "" {
+					viol("NearestNeighbor-panic", hist, pn)
+					return nil, false
+				}
+				if i, ok := u.idx[r]; !ok || st.Counts[i] == 0 {
+					viol("NearestNeighbor-not-stored", hist, fmt.Sprintf("p=%v returned %v", p, r))
+					return nil, false
+				} else if d := boxDist(p, u.Orig(i)); math.Abs(d-all[0]) > 1e-12 {
+					viol("NearestNeighbor-not-nearest", hist, fmt.Sprintf("p=%v returned o%d at distance %g, minimum is %g", p, i, d, all[0]))
+					return nil, false
+				}
+			} else {
+				var res []geom.Geom
+				if pn := try(func() { res = t.NearestNeighbors(2, p) }); pn != "" {
+					viol("NearestNeighbors-panic", hist, pn)
+					return nil, false
+				}
+				if bad := judgeKNN(u, st, res, 2, size, p, all); bad != "" {
+					viol("NearestNeighbors-wrong", hist, fmt.Sprintf("k=2 p=%v: %s", p, bad))
+					return nil, false
+				}
+			}
+		}
+		return &St{T: t, Counts: cn}, true
+	}
+	nops := 2*n + nq
+	var rec func(st *St, hist []int, d int)
+	rec = func(st *St, hist []int, d int) {
+		if d == 0 || e.R.NViolationSigs() > 0 {
+			return
+		}
+		for op := 0; op < nops; op++ {
+			h := append(hist[:len(hist):len(hist)], op)
+			nx, ok := step(st, h, op)
+			if !ok {
+				continue
+			}
+			atomic.AddInt64(&stats.Nodes, 1)
+			rec(nx, h, d-1)
+		}
+	}
+	root := &St{T: rtree.NewTree(u.Min, u.Max), Counts: make([]uint8, n)}
+	// parallel over the prefixes of length 2
+	type pre struct {
+		st   *St
+		hist []int
+	}
+	var pres []pre
+	for a := 0; a < nops; a++ {
+		s1, ok := step(root, []int{a}, a)
+		if !ok {
+			continue
+		}
+		stats.Nodes++
+		if depth < 2 {
+			continue
+		}
+		for b := 0; b < nops; b++ {
+			s2, ok := step(s1, []int{a, b}, b)
+			if !ok {
+				continue
+			}
+			stats.Nodes++
+			pres = append(pres, pre{s2, []int{a, b}})
+		}
+	}
+	enum.Parallel(len(pres), e.R.Expired, func(i int) { rec(pres[i].st, pres[i].hist, depth-2) })
+	if m := u.Modified(); m != "" {
+		viol("stored-object-modified", nil, m)
+	}
+	return stats
 }
